@@ -5,7 +5,7 @@ wt=/var/tmp/sc-$id-$$
 git -C /repo worktree add --detach $wt HEAD -q || exit 2
 cp /repo/go.sum $wt/go.sum
 if ! git -C $wt apply "$patch"; then echo "PATCH DOES NOT APPLY"; git -C /repo worktree remove --force $wt; exit 2; fi
-(cd /verif && VERIF_REPO=$wt ./check $id $tier --keep)
+(cd /verif && VERIF_REPO=$wt ./check $id $tier)
 rc=$?
 git -C /repo worktree remove --force $wt
 echo "seedcheck $id rc=$rc"
